@@ -158,3 +158,79 @@ func H_ExitPool() {
 	vrf.Assert(s.env.W.BalOf(joiner, atom).Equal(s.wa.Add(coins.AmountOf(atom))), "C01 exit: wallet credited what the pool paid (atom)")
 	s.check("exit")
 }
+
+// ---- keeper wiring around the pool's share maths (C05 at the keeper level) ----
+// The value inequalities of a join are proved on Pool.JoinPool itself (h_c05). Here Pool.JoinPool is a contract
+// (any positive share amount, any non-empty part of the offered coins, pool updated accordingly) and the keeper entry
+// point must mint for the joiner exactly the shares, and take exactly the coins, that the pool maths returned -
+// whatever share amount the message asked for.
+
+var (
+	kShares sdkmath.Int
+	kJoined sdk.Coins
+)
+
+func SumPoolJoin(p *ammtypes.Pool, ctx sdk.Context, snapshot *ammtypes.Pool, o ammtypes.OracleKeeper, acc ammtypes.AccountedPoolKeeper, tokensIn sdk.Coins, params ammtypes.Params) (sdk.Coins, sdkmath.Int, sdkmath.LegacyDec, sdkmath.LegacyDec, error) {
+	z := sdkmath.LegacyZeroDec()
+	if vrf.Bool("poolJoinFails") {
+		return sdk.NewCoins(), sdkmath.Int{}, z, z, ammtypes.ErrAmountTooLow
+	}
+	shares := vrf.Int("poolSharesOut")
+	vrf.Assume(shares.IsPositive())
+	joined := sdk.Coins{}
+	for i, c := range tokensIn {
+		j := vrf.Int("poolJoined" + string(rune('1'+i)))
+		vrf.Assume(j.IsPositive())
+		vrf.Assume(j.LTE(c.Amount))
+		joined = append(joined, sdk.NewCoin(c.Denom, j))
+	}
+	if err := p.IncreaseLiquidity(shares, joined); err != nil {
+		return sdk.NewCoins(), sdkmath.Int{}, z, z, err
+	}
+	kShares, kJoined = shares, joined
+	return joined, shares, z, z, nil
+}
+
+func keeperJoin(single bool) {
+	oraclePool = vrf.Bool("oraclePool")
+	s := setup(true)
+	env, ctx := s.env, s.env.Ctx
+	want, ma, mu := vrf.Int("shareOut"), vrf.Int("maxAtom"), vrf.Int("maxUsdc")
+	vrf.Assume(want.IsPositive())
+	vrf.Assume(ma.IsPositive())
+	vrf.Assume(mu.IsPositive())
+	offered := sdk.Coins{{Denom: atom, Amount: ma}, {Denom: usdc, Amount: mu}}
+	if single {
+		offered = sdk.Coins{{Denom: usdc, Amount: mu}}
+	}
+	kShares, kJoined = sdkmath.ZeroInt(), sdk.Coins{}
+	coins, shares, err := env.Amm.JoinPoolNoSwap(ctx, joiner, 1, want, offered)
+	if err != nil {
+		return
+	}
+	vrf.Cover("join-ok")
+	c := env.Comm.GetCommitments(ctx, joiner)
+	vrf.Assert(c.GetCommittedAmountForDenom(share).Sub(s.mine).Equal(kShares), "C05 keeper join: the shares committed for the joiner are exactly what the pool's share maths returned (not what the message asked for)")
+	vrf.Assert(env.W.SupplyOf(share).Sub(s.T).Equal(kShares), "C05 keeper join: exactly the shares the pool maths returned are minted")
+	vrf.Assert(shares.Equal(kShares), "C05 keeper join: the reported share amount is the pool maths' result")
+	vrf.Assert(s.wa.Sub(env.W.BalOf(joiner, atom)).Equal(kJoined.AmountOf(atom)), "C05 keeper join: the joiner pays exactly the uatom the pool maths joined")
+	vrf.Assert(s.wu.Sub(env.W.BalOf(joiner, usdc)).Equal(kJoined.AmountOf(usdc)), "C05 keeper join: the joiner pays exactly the uusdc the pool maths joined")
+	vrf.Assert(coins.AmountOf(usdc).Equal(kJoined.AmountOf(usdc)), "C05 keeper join: the reported coins are the joined coins")
+	p, _ := env.Amm.GetPool(ctx, 1)
+	vrf.Assert(p.TotalShares.Amount.Equal(s.T.Add(kShares)), "C05 keeper join: the stored pool's total shares grow by exactly the minted shares")
+	s.check("keeper join")
+}
+
+// all-asset join (constant-product and oracle pool) around a contract of Pool.JoinPool
+//
+//vrf:summary (*github.com/elys-network/elys/x/amm/types.Pool).JoinPool => SumPoolJoin
+//vrf:cover join-ok
+//vrf:bound 1 pool x 2 assets, constant-product or oracle (symbolic); requested share amount, offered amounts, reserves, supply unbounded positive; Pool.JoinPool under contract (any shares > 0, any part of the coins it was handed)
+func H_K1_KeeperJoin_AllAssets() { keeperJoin(false) }
+
+// single-asset join: the requested share amount is a free input unrelated to the deposit
+//
+//vrf:summary (*github.com/elys-network/elys/x/amm/types.Pool).JoinPool => SumPoolJoin
+//vrf:cover join-ok
+//vrf:bound as K1 with one offered coin
+func H_K1_KeeperJoin_SingleAsset() { keeperJoin(true) }
